@@ -102,12 +102,14 @@ Definition matrix_records (epx : list ipixel) (off : list Z) (chunksize : Z) (fi
 
 (** ---- _IndexingMixin._process_slice (_selectors.py:32-53) *)
 Definition process_slice (start stop : option Z) (nmax : Z) : Z * Z :=
-  let i0 := match start with None => 0 | Some a => if a <? 0 then nmax + a else a end in
-  let i1 := match stop with None => nmax | Some b => if b <? 0 then nmax + b else b end in
+  let i0 := match start with None => 0 | Some a => if a <? 0 then Z.max (nmax + a) 0 else a end in
+  let i1 := match stop with None => nmax | Some b => if b <? 0 then Z.max (nmax + b) 0 else b end in
   (i0, i1).
 Definition process_scalar (s nmax : Z) : option (Z * Z) :=
   let s' := if s <? 0 then s + nmax else s in
-  if s' >=? nmax then None else Some (s', s' + 1).
+  if (s' <? 0) || (s' >=? nmax) then None else Some (s', s' + 1).
+(** how an array resolves one bound of a step-1 slice (Python's slice.indices): add the length to a negative bound, then clamp *)
+Definition array_bound (a n : Z) : Z := Z.min (Z.max (if a <? 0 then a + n else a) 0) n.
 
 (** ---- helpers for the correspondence run (checksums keep the printed terms small) *)
 Definition epx_of (px : list pixel) : list ipixel := enumerate px.
